@@ -594,3 +594,8 @@ UNITS += [
     Unit("C20", "jsonargparse.typing:restricted_number_type", rnt_setup, rnt_post, rnt_raises, expect_cover=("return", "raise:ValueError"),
          trusted=["extend_base_type: its own unit", "validation_fn: its own unit (the acceptance predicate)", "sorted() on (operator text, number) tuples, str(number), operator.__name__ evaluated by CPython on the concrete requests of the scenario"]),
 ]
+
+
+# a pathlib value round-trips as the path it is: such an option never loads its value from the file the path names
+from contracts.any_units import is_pathlike_unit, typehint_init_unit  # noqa: E402
+UNITS += [is_pathlike_unit("C20"), typehint_init_unit("C20")]
